@@ -64,16 +64,69 @@ macro_rules! finalize_runner {
         }
       }
 
-      pub fn run_hot(sh: Shape, stims: &[Sexp]) -> String {
+      /// `dead`: the subject has been unsubscribed before the subscription is made.
+      /// While the subscription is being unsubscribed the callback also pushes an item into the
+      /// subject: whoever is still connected at that moment would see it.
+      pub fn run_hot(sh: Shape, stims: &[Sexp], dead: bool) -> String {
         let log: Log = Log::default();
         let subject: $subj = <$subj>::default();
+        if dead {
+          subject.clone().unsubscribe();
+        }
         let l2 = log.clone();
-        let cb = move || l2.lock().unwrap().push("call".to_string());
+        let in_unsub = Arc::new(std::sync::atomic::AtomicBool::new(false));
+        let (flag, s2) = (in_unsub.clone(), subject.clone());
+        let cb = move || {
+          l2.lock().unwrap().push("call".to_string());
+          if flag.load(std::sync::atomic::Ordering::SeqCst) {
+            let mut s3 = s2.clone();
+            s3.next(Val::Z(99));
+          }
+        };
         let p = FProbe { log: log.clone() };
         let mut handle: Option<$boxty> = Some(match sh {
           Shape::Plain => $boxsub::new(subject.clone().$fin(cb).actual_subscribe(p)),
           Shape::TakeBefore(n) => $boxsub::new(subject.clone().take(n).$fin(cb).actual_subscribe(p)),
           Shape::TakeAfter(n) => $boxsub::new(subject.clone().$fin(cb).take(n).actual_subscribe(p)),
+        });
+        for st in stims {
+          match st {
+            Sexp::Atom(a) if a == "u" => {
+              if let Some(h) = handle.take() {
+                in_unsub.store(true, std::sync::atomic::Ordering::SeqCst);
+                h.unsubscribe();
+                in_unsub.store(false, std::sync::atomic::Ordering::SeqCst);
+              }
+            }
+            Sexp::Atom(a) if a == "ud" => {
+              if let Some(h) = handle.take() {
+                in_unsub.store(true, std::sync::atomic::Ordering::SeqCst);
+                drop(h.unsubscribe_when_dropped());
+                in_unsub.store(false, std::sync::atomic::Ordering::SeqCst);
+              }
+            }
+            _ => emit(&subject, &Ev::parse(st)),
+          }
+          log.lock().unwrap().push("|".to_string());
+        }
+        show(&log)
+      }
+
+      /// never(): its subscription is `()`
+      pub fn run_never(sh: Shape, stims: &[Sexp]) -> String {
+        let log: Log = Log::default();
+        let l2 = log.clone();
+        let cb = move || l2.lock().unwrap().push("call".to_string());
+        let p = FProbe { log: log.clone() };
+        macro_rules! src {
+          () => {
+            observable::never().map(|_: ()| Val::U).on_error_map(|e: std::convert::Infallible| -> i64 { match e {} })
+          };
+        }
+        let mut handle: Option<$boxty> = Some(match sh {
+          Shape::Plain => $boxsub::new(src!().$fin(cb).actual_subscribe(p)),
+          Shape::TakeBefore(n) => $boxsub::new(src!().take(n).$fin(cb).actual_subscribe(p)),
+          Shape::TakeAfter(n) => $boxsub::new(src!().$fin(cb).take(n).actual_subscribe(p)),
         });
         for st in stims {
           match st {
@@ -87,7 +140,7 @@ macro_rules! finalize_runner {
                 drop(h.unsubscribe_when_dropped());
               }
             }
-            _ => emit(&subject, &Ev::parse(st)),
+            _ => {}
           }
           log.lock().unwrap().push("|".to_string());
         }
@@ -137,14 +190,18 @@ macro_rules! finalize_runner {
 finalize_runner!(local, Subject<'static, Val, i64>, finalize, BoxSubscription, BoxSubscription<'static>, Subscriber);
 finalize_runner!(threads, SubjectThreads<Val, i64>, finalize_threads, BoxSubscriptionThreads, BoxSubscriptionThreads, SubscriberThreads);
 
-/// (finalize FORM hot|cold SHAPE (stims ST...))
+/// (finalize FORM hot|cold|dead|never SHAPE (stims ST...))
 pub fn run_finalize(body: &[Sexp]) -> String {
   let sh = shape(&body[2]);
   let stims = body[3].args();
   match (body[0].atom(), body[1].atom()) {
-    ("local", "hot") => local::run_hot(sh, stims),
+    ("local", "hot") => local::run_hot(sh, stims, false),
+    ("local", "dead") => local::run_hot(sh, stims, true),
+    ("local", "never") => local::run_never(sh, stims),
+    ("threads", "dead") => threads::run_hot(sh, stims, true),
+    ("threads", "never") => threads::run_never(sh, stims),
     ("local", "cold") => local::run_cold(sh, stims),
-    ("threads", "hot") => threads::run_hot(sh, stims),
+    ("threads", "hot") => threads::run_hot(sh, stims, false),
     ("threads", "cold") => threads::run_cold(sh, stims),
     (f, s) => panic!("bad finalize form {f} {s}"),
   }
